@@ -30,7 +30,7 @@ def _has_quant(e, _seen=None):
     return False
 
 
-def discharge(ded, eng, qualname, clause_of=None, tier='quick', variant=None, label=None, timeout=None):
+def discharge(ded, eng, qualname, clause_of=None, tier='quick', variant=None, label=None, timeout=None, only=None):
     """verify one function; append named obligations to `ded`.
     Obligation names are `<function>[<variant>]: <contract clause>` (one per clause, all paths together), so they
     are stable under edits that add or remove branches.
@@ -57,6 +57,8 @@ def discharge(ded, eng, qualname, clause_of=None, tier='quick', variant=None, la
     info['calls_by_contract'] = res.get('called')
     info['inlined'] = res.get('inlined')
     pend = res['obligations']
+    if only is not None:
+        pend = [p for p in pend if only(p)]
     timeout = timeout or (20 if tier == 'quick' else 120)
     # each pending obligation is split into its top-level goal conjuncts; a quantifier-free conjunct is first
     # tried against the quantifier-free hypotheses only (dropping hypotheses is sound for proving and keeps
